@@ -80,4 +80,490 @@ theorem inv_doLogin (c : Config) (st : State) (h : Inv st) (hc : st.conn = .conn
   · exact ⟨h1, h2, h3, h4⟩
   · exact inv_closeServer _ _ ⟨h1, h2, h3, h4⟩
 
+theorem inv_doLoginCut (c : Config) (j d : Nat) (res : List String) (ul : Bool) (st : State) (h : Inv st)
+    (hc : st.conn = .connected) : Inv (doLoginCut c j d res ul st).1 := by
+  unfold doLoginCut
+  simp only []
+  split
+  · exact inv_doLogin _ _ (by simpa [Inv] using h) (by simpa using hc)
+  · simp [closeServer, hc, Inv]
+
+theorem inv_reconnect (c : Config) (st : State) (h : Inv st) : Inv (reconnect c st).1 := by
+  unfold reconnect
+  obtain ⟨h1, h2, h3, h4⟩ := h
+  split
+  · split
+    · exact inv_doLogin _ _ (by simp [Inv]) (by simp)
+    · simp [Inv]
+  · simp [closeServer, Inv]
+
+theorem inv_tickWd (c : Config) (st : State) (h : Inv st) : Inv (tickWd c st).1 := by
+  unfold tickWd
+  split
+  · exact h
+  · split
+    · rename_i hc
+      obtain ⟨h1, h2, h3, h4⟩ := h
+      refine ⟨by simpa using h1, ?_, h3, h4⟩
+      intro n _; exact hc.1
+    · exact h
+  · split
+    · exact inv_reconnect _ _ h
+    · rename_i n hw _
+      obtain ⟨h1, h2, h3, h4⟩ := h
+      refine ⟨by simpa using h1, ?_, h3, h4⟩
+      intro m _; exact h2 n hw
+
+theorem inv_doStart (c : Config) (st : State) (h : Inv st) (hu : st.conn = .uninit) : Inv (doStart c st).1 := by
+  unfold doStart
+  obtain ⟨h1, h2, h3, h4⟩ := h
+  have h1' := h1 (by simp [hu])
+  simp only []
+  split
+  · simp [Inv, hu, h1']
+    intro n hn; have := h2 n hn; simp [hu] at this
+  · split
+    · simp [Inv]
+      cases c.reconnectAuto <;> simp
+    · simp [closeServer, Inv]
+
+theorem inv_doStop (st : State) (h : Inv st) : Inv (doStop st).1 := by
+  have hA : Inv { st with wd := if covered .watchdog then .off else st.wd
+                          logConn := st.logConn && !covered .logConnections } := by
+    obtain ⟨h1, h2, h3, h4⟩ := h
+    refine ⟨h1, ?_, h3, h4⟩
+    intro n hn
+    by_cases hc : covered .watchdog = true
+    · simp [hc] at hn
+    · simp [hc] at hn; exact h2 n hn
+  have hB := inv_closeServer .requested _ hA
+  unfold doStop
+  simpa [Inv] using hB
+
+theorem inv_step (c : Config) (st : State) (op : Op) (h : Inv st) : Inv (step c st op).1 := by
+  cases op with
+  | start =>
+    simp only [step]; split
+    · exact h
+    · rename_i hc
+      exact inv_doStart _ _ h (by
+        cases hu : st.conn <;> simp_all)
+  | login => simp only [step]; split
+             · rename_i hc; exact inv_doLogin _ _ h hc.1
+             · exact h
+  | loginCut j d res ul =>
+    simp only [step]; split
+    · rename_i hc; exact inv_doLoginCut _ _ _ _ _ _ h hc.1
+    · exact h
+  | exec => simp only [step]; split <;> exact h
+  | populate => simp only [step]; split
+                · simpa [Inv] using h
+                · exact h
+  | search => simp only [step]; split
+              · simpa [Inv] using h
+              · exact h
+  | wishlistInterval => simp only [step]; split
+                        · simpa [Inv] using h
+                        · exact h
+  | potentialParents => simp only [step]; split
+                        · simpa [Inv] using h
+                        · exact h
+  | loss r => simp only [step]; split
+              · exact inv_closeServer _ _ h
+              · exact h
+  | tick => simp only [step]; exact inv_tickWd _ _ (by simpa [Inv] using h)
+  | setSrvUp b => simpa [step, Inv] using h
+  | setSrvReply r => simpa [step, Inv] using h
+  | stop => simp only [step]; split
+            · exact inv_doStop _ h
+            · exact h
+
+theorem inv_run (c : Config) (ops : List Op) : ∀ st, Inv st → Inv (run c st ops).1 := by
+  induction ops with
+  | nil => intro st h; exact h
+  | cons op ops ih =>
+    intro st h
+    simp only [run]
+    exact ih _ (inv_step c st op h)
+
+/-! ## sessions initialised / destroyed -/
+
+def nInit (o : List Obs) : Nat := o.count .sessionInit
+def nDestr (o : List Obs) : Nat := o.count .sessionDestroyed
+def b2n (b : Bool) : Nat := if b then 1 else 0
+
+theorem nInit_append (a b : List Obs) : nInit (a ++ b) = nInit a + nInit b := by simp [nInit]
+theorem nDestr_append (a b : List Obs) : nDestr (a ++ b) = nDestr a + nDestr b := by simp [nDestr]
+
+theorem count_closeServer (r : Reason) (st : State) :
+    nDestr (closeServer r st).2 + b2n (closeServer r st).1.session = b2n st.session ∧
+    nInit (closeServer r st).2 = 0 := by
+  unfold closeServer
+  split
+  · simp [nDestr, nInit]
+  · cases hs : st.session <;> simp [nDestr, nInit, b2n]
+
+theorem count_doLogin (c : Config) (st : State) (hs : st.session = false) :
+    nDestr (doLogin c st).2 + b2n (doLogin c st).1.session = nInit (doLogin c st).2 := by
+  unfold doLogin
+  split
+  · simp [nDestr, nInit, b2n]
+  · simp [nDestr, nInit, b2n, hs]
+  · simp [nDestr, nInit, b2n, hs]
+  · have := count_closeServer .eof st
+    simp only [nDestr, nInit, List.count_append, hs, b2n] at this ⊢
+    simp at this ⊢
+    obtain ⟨⟨h1, h2⟩, h3⟩ := this
+    simp [h1, h2, h3]
+
+theorem count_doLoginCut (c : Config) (j d : Nat) (res : List String) (ul : Bool) (st : State)
+    (hs : st.session = false) (hc : st.conn = .connected) :
+    nDestr (doLoginCut c j d res ul st).2 + b2n (doLoginCut c j d res ul st).1.session =
+      nInit (doLoginCut c j d res ul st).2 := by
+  unfold doLoginCut
+  simp only []
+  split
+  · exact count_doLogin _ _ (by simpa using hs)
+  · simp [closeServer, hc, nDestr, nInit, b2n]
+
+theorem count_reconnect (c : Config) (st : State) (hs : st.session = false) :
+    nDestr (reconnect c st).2 + b2n (reconnect c st).1.session = nInit (reconnect c st).2 := by
+  unfold reconnect
+  split
+  · split
+    · have := count_doLogin c { st with conn := .connected, ping := true, wd := .idle } (by simpa using hs)
+      simp only [nDestr, nInit, List.count_append] at this ⊢
+      simpa using this
+    · simp [nDestr, nInit, b2n, hs]
+  · simp [closeServer, nDestr, nInit, b2n, hs]
+
+theorem count_tickWd (c : Config) (st : State) (h : Inv st) :
+    nDestr (tickWd c st).2 + b2n (tickWd c st).1.session = nInit (tickWd c st).2 + b2n st.session := by
+  unfold tickWd
+  split
+  · simp [nDestr, nInit]
+  · split <;> simp [nDestr, nInit]
+  · rename_i n hw
+    split
+    · have hcl := h.2.1 n hw
+      have hs : st.session = false := (h.1 (by simp [hcl])).2.2
+      rw [count_reconnect c st hs, hs]; simp [b2n]
+    · simp [nDestr, nInit]
+
+theorem count_doStart (c : Config) (st : State) (hs : st.session = false) :
+    nDestr (doStart c st).2 + b2n (doStart c st).1.session = nInit (doStart c st).2 := by
+  unfold doStart
+  simp only []
+  split
+  · simp [nDestr, nInit, b2n, hs]
+  · split
+    · simp [nDestr, nInit, b2n, hs]
+    · simp [closeServer, nDestr, nInit, b2n, hs]
+
+theorem count_doStop (st : State) :
+    nDestr (doStop st).2 + b2n (doStop st).1.session = b2n st.session ∧ nInit (doStop st).2 = 0 := by
+  have := count_closeServer .requested { st with wd := if covered .watchdog then .off else st.wd
+                                                 logConn := st.logConn && !covered .logConnections }
+  unfold doStop
+  simpa using this
+
+theorem count_step (c : Config) (st : State) (op : Op) (h : Inv st) :
+    nDestr (step c st op).2 + b2n (step c st op).1.session = nInit (step c st op).2 + b2n st.session := by
+  cases op with
+  | start =>
+    simp only [step]; split
+    · simp [nDestr, nInit]
+    · rename_i hc
+      have hu : st.conn ≠ .connected := by
+        cases hu : st.conn <;> simp_all
+      have hs := (h.1 hu).2.2
+      rw [count_doStart c st hs, hs]; simp [b2n]
+  | login =>
+    simp only [step]; split
+    · rename_i hc; rw [count_doLogin c st hc.2.1, hc.2.1]; simp [b2n]
+    · simp [nDestr, nInit]
+  | loginCut j d res ul =>
+    simp only [step]; split
+    · rename_i hc; rw [count_doLoginCut c j d res ul st hc.2.1 hc.1, hc.2.1]; simp [b2n]
+    · simp [nDestr, nInit]
+  | exec => simp only [step]; split <;> simp [nDestr, nInit]
+  | populate => simp only [step]; split <;> simp [nDestr, nInit]
+  | search => simp only [step]; split <;> simp [nDestr, nInit]
+  | wishlistInterval => simp only [step]; split <;> simp [nDestr, nInit]
+  | potentialParents => simp only [step]; split <;> simp [nDestr, nInit]
+  | loss r =>
+    simp only [step]; split
+    · have := count_closeServer r st; omega
+    · simp [nDestr, nInit]
+  | tick =>
+    simp only [step]
+    have := count_tickWd c { st with pp := agePP st.pp } (by simpa [Inv] using h)
+    simpa using this
+  | setSrvUp b => simp [step, nDestr, nInit]
+  | setSrvReply r => simp [step, nDestr, nInit]
+  | stop =>
+    simp only [step]; split
+    · have := count_doStop st; omega
+    · simp [nDestr, nInit]
+
+theorem count_run (c : Config) (ops : List Op) : ∀ st, Inv st →
+    nDestr (run c st ops).2 + b2n (run c st ops).1.session = nInit (run c st ops).2 + b2n st.session := by
+  induction ops with
+  | nil => intro st _; simp [run, nDestr, nInit]
+  | cons op ops ih =>
+    intro st h
+    simp only [run, nDestr_append, nInit_append]
+    have h1 := count_step c st op h
+    have h2 := ih _ (inv_step c st op h)
+    omega
+
+/-! ## loss resets -/
+
+/-- the step reported the server connection CLOSED -/
+def obsClosed (o : List Obs) : Bool := o.any (fun x => match x with | .closed _ => true | _ => false)
+
+theorem obsClosed_append (a b : List Obs) : obsClosed (a ++ b) = (obsClosed a || obsClosed b) := by
+  simp [obsClosed]
+
+theorem reset_closeServer (r : Reason) (st : State) (h : obsClosed (closeServer r st).2 = true) :
+    cleared (closeServer r st).1 := by
+  unfold closeServer at h ⊢
+  split
+  · rename_i hc; simp [hc, obsClosed] at h
+  · simp [cleared]
+
+theorem reset_doLogin (c : Config) (st : State) (h : obsClosed (doLogin c st).2 = true) :
+    cleared (doLogin c st).1 := by
+  unfold doLogin at h ⊢
+  split
+  · rename_i hr; simp [hr, obsClosed] at h
+  · rename_i hr; simp [hr, obsClosed] at h
+  · rename_i hr; simp [hr, obsClosed] at h
+  · rename_i hr
+    simp only [hr, obsClosed_append] at h
+    apply reset_closeServer
+    simpa [obsClosed] using h
+
+theorem reset_reconnect (c : Config) (st : State) (h : obsClosed (reconnect c st).2 = true) :
+    cleared (reconnect c st).1 := by
+  unfold reconnect at h ⊢
+  by_cases hu : st.srvUp = true
+  · by_cases ha : c.reconnectAuto = true
+    · simp only [hu, ha, if_true] at h ⊢
+      simp only [obsClosed_append] at h
+      apply reset_doLogin
+      simpa [obsClosed] using h
+    · simp [hu, ha, obsClosed] at h
+  · simp only [hu] at h ⊢
+    apply reset_closeServer
+    simpa [obsClosed] using h
+
+theorem reset_tickWd (c : Config) (st : State) (h : obsClosed (tickWd c st).2 = true) :
+    cleared (tickWd c st).1 := by
+  unfold tickWd at h ⊢
+  split
+  · rename_i hw; simp [hw, obsClosed] at h
+  · rename_i hw
+    split
+    · rename_i hc; simp [hw, hc, obsClosed] at h
+    · rename_i hc; simp [hw, hc, obsClosed] at h
+  · rename_i n hw
+    split
+    · rename_i hn
+      simp only [hw, hn, if_true] at h
+      exact reset_reconnect c st h
+    · rename_i hn; simp [hw, hn, obsClosed] at h
+
+theorem reset_doStart (c : Config) (st : State) (h : obsClosed (doStart c st).2 = true) :
+    cleared (doStart c st).1 := by
+  unfold doStart at h ⊢
+  simp only [] at h ⊢
+  cases hl : listenResult c with
+  | none => simp [hl, obsClosed] at h
+  | some n =>
+    by_cases hu : st.srvUp = true
+    · simp [hl, hu, obsClosed] at h
+    · simp only [hl, hu] at h ⊢
+      apply reset_closeServer
+      simpa [obsClosed] using h
+
+theorem reset_doStop (st : State) (h : obsClosed (doStop st).2 = true) : cleared (doStop st).1 := by
+  unfold doStop at h ⊢
+  simp only [] at h ⊢
+  have := reset_closeServer _ _ h
+  obtain ⟨h1, h2, h3, h4, h5⟩ := this
+  refine ⟨?_, ?_, h3, h4, h5⟩
+  · simp [h1]
+  · simp [h2]
+
+theorem reset_step (c : Config) (st : State) (op : Op) (hop : ∀ j d res ul, op ≠ .loginCut j d res ul)
+    (h : obsClosed (step c st op).2 = true) : cleared (step c st op).1 := by
+  cases op with
+  | start =>
+    simp only [step] at h ⊢; split at h
+    · simp [obsClosed] at h
+    · rename_i hc; rw [if_neg hc]; exact reset_doStart c st h
+  | login =>
+    simp only [step] at h ⊢; split at h
+    · rename_i hc; rw [if_pos hc]; exact reset_doLogin c st h
+    · simp [obsClosed] at h
+  | loginCut j d res ul => exact absurd rfl (hop j d res ul)
+  | exec => simp only [step] at h; split at h <;> simp [obsClosed] at h
+  | populate => simp only [step] at h; split at h <;> simp [obsClosed] at h
+  | search => simp only [step] at h; split at h <;> simp [obsClosed] at h
+  | wishlistInterval => simp only [step] at h; split at h <;> simp [obsClosed] at h
+  | potentialParents => simp only [step] at h; split at h <;> simp [obsClosed] at h
+  | loss r =>
+    simp only [step] at h ⊢; split at h
+    · rename_i hc; rw [if_pos hc]; exact reset_closeServer r st h
+    · simp [obsClosed] at h
+  | tick => simp only [step] at h ⊢; exact reset_tickWd c _ h
+  | setSrvUp b => simp [step, obsClosed] at h
+  | setSrvReply r => simp [step, obsClosed] at h
+  | stop =>
+    simp only [step] at h ⊢; split at h
+    · rename_i hc; rw [if_pos hc]; exact reset_doStop st h
+    · simp [obsClosed] at h
+
+/-! ## stop is final -/
+
+theorem covered_all (k : Site) (h1 : k ≠ .directConnect) (h2 : k ≠ .indirectConnect) : covered k = true := by
+  cases k <;> first | exact absurd rfl h1 | exact absurd rfl h2 | decide
+
+/-- nothing of the library is left: no task, no socket, no session, and `stop()` has run -/
+def Quiet (st : State) : Prop :=
+  st.wd = .off ∧ st.ping = false ∧ st.reader = false ∧ st.userMgmt = false ∧ st.transferMgmt = false ∧
+  st.transferProgress = false ∧ st.logConn = false ∧ st.scan = false ∧ st.wishlist = false ∧ st.tracked = [] ∧
+  st.searchTimers = 0 ∧ st.wishlistTimers = 0 ∧ st.pp = [] ∧ st.conn ≠ .connected ∧ st.listening = 0 ∧
+  st.session = false ∧ st.started = true ∧ st.stopped = true
+
+theorem quiet_alive (st : State) (h : Quiet st) : alive st = [] ∧ openSockets st = 0 := by
+  obtain ⟨h1, h2, h3, h4, h5, h6, h7, h8, h9, h10, h11, h12, h13, h14, h15, _, _, _⟩ := h
+  simp [alive, openSockets, h1, h2, h3, h4, h5, h6, h7, h8, h9, h10, h11, h12, h13, h14, h15]
+
+theorem quiet_doStop (st : State) (h : Inv st) (hs : st.started = true) : Quiet (doStop st).1 := by
+  have c1 := covered_all .watchdog (by decide) (by decide)
+  have c2 := covered_all .logConnections (by decide) (by decide)
+  have c3 := covered_all .sharesScan (by decide) (by decide)
+  have c4 := covered_all .userMgmt (by decide) (by decide)
+  have c5 := covered_all .tracking (by decide) (by decide)
+  have c6 := covered_all .transferMgmt (by decide) (by decide)
+  have c7 := covered_all .transferProgress (by decide) (by decide)
+  have c8 := covered_all .wishlist (by decide) (by decide)
+  have c9 := covered_all .searchTimer (by decide) (by decide)
+  have c10 := covered_all .wishlistTimer (by decide) (by decide)
+  have c11 := covered_all .potentialParent (by decide) (by decide)
+  obtain ⟨h1, h2, h3, h4⟩ := h
+  unfold doStop closeServer
+  simp only [c1, c2, c3, c4, c5, c6, c7, c8, c9, c10, c11]
+  by_cases hc : st.conn = .closed ∨ st.conn = .closing
+  · have hn : st.conn ≠ .connected := by rcases hc with hc | hc <;> simp [hc]
+    obtain ⟨p1, p2, p3⟩ := h1 hn
+    simp [Quiet, hc, p1, p2, p3, hn, hs]
+  · simp [Quiet, hc, hs]
+
+theorem quiet_step (c : Config) (st : State) (op : Op) (h : Quiet st) :
+    Quiet (step c st op).1 ∧ ∀ o ∈ (step c st op).2, o = .invalid ∨ o = .refused := by
+  obtain ⟨h1, h2, h3, h4, h5, h6, h7, h8, h9, h10, h11, h12, h13, h14, h15, h16, h17, h18⟩ := h
+  have hq : Quiet st := ⟨h1, h2, h3, h4, h5, h6, h7, h8, h9, h10, h11, h12, h13, h14, h15, h16, h17, h18⟩
+  cases op with
+  | start => simp [step, h17, hq]
+  | login => simp [step, h14, hq]
+  | loginCut j d res ul => simp [step, h14, hq]
+  | exec => simp [step, h16, hq]
+  | populate => simp [step, h3, hq]
+  | search => simp [step, h18, hq]
+  | wishlistInterval => simp [step, h3, hq]
+  | potentialParents => simp [step, h3, hq]
+  | loss r => simp [step, h14, hq]
+  | tick =>
+    simp only [step, h13, agePP, tickWd, h1, List.filter_nil, List.map_nil]
+    refine ⟨?_, by simp⟩
+    exact ⟨rfl, h2, h3, h4, h5, h6, h7, h8, h9, h10, h11, h12, rfl, h14, h15, h16, h17, h18⟩
+  | setSrvUp b => simp only [step]; exact ⟨by simpa [Quiet] using hq, by simp⟩
+  | setSrvReply r => simp only [step]; exact ⟨by simpa [Quiet] using hq, by simp⟩
+  | stop => simp [step, h18, hq]
+
+theorem quiet_run (c : Config) (ops : List Op) : ∀ st, Quiet st →
+    Quiet (run c st ops).1 ∧ ∀ o ∈ (run c st ops).2, o = .invalid ∨ o = .refused := by
+  induction ops with
+  | nil => intro st h; simp [run, h]
+  | cons op ops ih =>
+    intro st h
+    have h1 := quiet_step c st op h
+    have h2 := ih _ h1.1
+    simp only [run]
+    refine ⟨h2.1, ?_⟩
+    intro o ho
+    rcases List.mem_append.mp ho with ho | ho
+    · exact h1.2 o ho
+    · exact h2.2 o ho
+
+/-! ## the reconnect watchdog -/
+
+theorem off_step (c : Config) (st : State) (op : Op) (he : op.isEnv = true) (h : st.wd = .off) :
+    (step c st op).1.wd = .off ∧ (step c st op).2 = [] := by
+  cases op <;> simp [Op.isEnv] at he <;> simp [step, tickWd, h]
+
+theorem off_run (c : Config) (ops : List Op) : ∀ st, (∀ op ∈ ops, op.isEnv = true) → st.wd = .off →
+    (run c st ops).2 = [] := by
+  induction ops with
+  | nil => intro st _ _; rfl
+  | cons op ops ih =>
+    intro st he h
+    have h1 := off_step c st op (he op (by simp)) h
+    have h2 := ih _ (fun o ho => he o (by simp [ho])) h1.1
+    simp [run, h1.2, h2]
+
+/-- no credentials: the watchdog polls but never reconnects (network.py:386-392) -/
+theorem nocreds_step (c : Config) (st : State) (hc : c.credsOk = false) (h : st.wd = .idle) :
+    (step c st .tick).1.wd = .idle ∧ (step c st .tick).2 = [] := by
+  simp [step, tickWd, h, hc]
+
+theorem sleeping_ticks (c : Config) : ∀ (n : Nat) (st : State), st.wd = .sleeping (n + 1) →
+    (run c st (List.replicate n .tick)).2 = [] ∧ (run c st (List.replicate n .tick)).1.wd = .sleeping 1 ∧
+    (run c st (List.replicate n .tick)).1.srvUp = st.srvUp := by
+  intro n
+  induction n with
+  | zero => intro st h; simp [run, h]
+  | succ n ih =>
+    intro st h
+    have hs : step c st .tick = ({ st with pp := agePP st.pp, wd := .sleeping (n + 1) }, []) := by
+      simp [step, tickWd, h]
+    have := ih { st with pp := agePP st.pp, wd := .sleeping (n + 1) } rfl
+    simp only [List.replicate_succ, run, hs]
+    simpa using this
+
+theorem reconnect_attempt (c : Config) (st : State) : Obs.attempt ∈ (reconnect c st).2 := by
+  unfold reconnect
+  split
+  · split <;> simp
+  · simp
+
+theorem run_append (c : Config) (a b : List Op) : ∀ st,
+    run c st (a ++ b) = ((run c (run c st a).1 b).1, (run c st a).2 ++ (run c (run c st a).1 b).2) := by
+  induction a with
+  | nil => intro st; simp [run]
+  | cons op a ih => intro st; simp [run, ih, List.append_assoc]
+
+theorem idle_reconnects (c : Config) (st : State) (hw : st.wd = .idle) (hc : st.conn = .closed)
+    (hk : c.credsOk = true) :
+    Obs.attempt ∈ (run c st (List.replicate (reconnectTicks + 1) .tick)).2 := by
+  have h1 : step c st .tick = ({ st with pp := agePP st.pp, wd := .sleeping reconnectTicks }, []) := by
+    simp [step, tickWd, hw, hc, hk]
+  have hrep : List.replicate (reconnectTicks + 1) Op.tick =
+      Op.tick :: (List.replicate (reconnectTicks - 1) Op.tick ++ [Op.tick]) := by
+    simp [reconnectTicks, List.replicate]
+  rw [hrep]
+  simp only [run, h1, run_append]
+  have hs := sleeping_ticks c (reconnectTicks - 1) { st with pp := agePP st.pp, wd := .sleeping reconnectTicks }
+    (by simp [reconnectTicks])
+  obtain ⟨_, hs2, _⟩ := hs
+  apply List.mem_append_right
+  apply List.mem_append_right
+  apply List.mem_append_left
+  simp only [step, tickWd, hs2]
+  simp only [Nat.le_refl, if_true]
+  exact reconnect_attempt c _
+
 end AioslskVerif.Session
